@@ -29,7 +29,8 @@ THEOREMS = ['C02_balanced', 'C02_exit_only_active', 'C02_enter_only_inactive', '
 
 
 def gen(rng, i, tier):
-    c = hsm.gen_case(rng, max_depth=(4 if tier == 'thorough' and i % 3 == 0 else 3), p_parallel=0.35)
+    c = hsm.gen_case(rng, max_depth=(4 if tier == 'thorough' and i % 3 == 0 else 3), p_parallel=0.35,
+                     p_subset=(0.7 if i % 10 == 7 else 0.0))
     n = [0]
     for p, d in hsm.all_defs(c['machine']):
         for key in ('enter', 'exit'):
@@ -50,11 +51,18 @@ def _has_parallel(case):
     return any(len(d['initial']) >= 2 for _, d in hsm.all_defs(case['machine']))
 
 
+def _has_subset_parallel(case):
+    return any(2 <= len(d['initial']) < len(d['children']) for _, d in hsm.all_defs(case['machine']))
+
+
 def classify_known(case, mo, io):
     if mo is None and _has_parallel(case):
-        msg = oracle(case, io, only_kf=True)
-        if msg:
+        msg = oracle(case, io)
+        if msg and 'entered and afterwards exited within one event' in msg:
             return 'KF-C02-1'
+        if msg and _has_subset_parallel(case) and ('exited while not active' in msg or 'entered before its parent' in msg
+                                                   or 'differ from the active states' in msg):
+            return 'KF-C02-2'
     return None
 
 
